@@ -4,7 +4,7 @@ import random
 
 
 def _alpha_set(tier):
-  a = [None, 1.0, 2.0, 0.5, 0.75]
+  a = [None, 1.0, 2.0, 0.5, 0.75, 2.0 ** -20]      # 2^-20: steps far below keras' epsilon 1e-7 are still steps
   if tier == "thorough":
     a += [4.0, 0.3, 3.0]
   return a
